@@ -792,6 +792,62 @@ func checkC17(c *Ctx) {
 			}
 		})
 		read := dfn
+		// a frame that is all header (declared length 0: the "unknown" reply, a bare request) is a complete frame: the
+		// short-read guard rejects fewer than 3 bytes, not 3
+		nrej := 0
+		eachInstr(read, func(_ *ssa.BasicBlock, _ int, in ssa.Instruction) {
+			bo, ok := in.(*ssa.BinOp)
+			if !ok {
+				return
+			}
+			k, isC := constInt(bo.Y)
+			if !isC {
+				return
+			}
+			isN := bo.X == n
+			if lc, isCall := bo.X.(*ssa.Call); isCall && isBuiltin(lc, "len") {
+				if _, isPrm := lc.Call.Args[0].(*ssa.Parameter); isPrm && dfn != p.Func("cmd/samaritan/hotrestart", "readMessage") {
+					isN = true
+				}
+			}
+			if !isN {
+				return
+			}
+			for _, r := range *bo.Referrers() {
+				iff, ok := r.(*ssa.If)
+				if !ok {
+					continue
+				}
+				for side, succ := range iff.Block().Succs {
+					if len(succ.Preds) != 1 {
+						continue
+					}
+					ret, isRet := succ.Instrs[len(succ.Instrs)-1].(*ssa.Return)
+					if !isRet || len(ret.Results) == 0 || isNilConst(returnedValues(ret)[len(ret.Results)-1]) {
+						continue
+					}
+					var v bool
+					switch bo.Op {
+					case token.LSS:
+						v = 3 < k
+					case token.LEQ:
+						v = 3 <= k
+					case token.GTR:
+						v = 3 > k
+					case token.GEQ:
+						v = 3 >= k
+					case token.EQL:
+						v = 3 == k
+					case token.NEQ:
+						v = 3 != k
+					default:
+						continue
+					}
+					nrej++
+					c.Check((side == 0) != v, "R4", fmt.Sprintf("short-read guard#%d accepts a header-only frame", nrej), bo.Pos(), "a datagram of exactly 3 bytes passes the guard", "a datagram of exactly 3 bytes - a complete frame with declared length 0, e.g. the protocol's own \"unknown\" reply or a bare-header request - is rejected as an invalid header: the request is dropped without a step and without a reply, and the peer waits for ever")
+				}
+			}
+		})
 		ns := 0
 		eachInstr(read, func(_ *ssa.BasicBlock, _ int, in ssa.Instruction) {
 			sl, ok := in.(*ssa.Slice)
